@@ -40,7 +40,14 @@ def stepFwd (toks : List String) : Option String :=
       let retS := match out with
         | .noForwarder => "noforwarder"
         | .passed r => toString r
-      some s!"list={joinOrDash (fs.map fun f => toHexOrDash (fwString f))} get={getS} calls={joinOrDash (calls.map toString)} ret={retS}"
+      -- the same query when every upstream FAILS: the result of the chosen upstream is handed
+      -- through (here the marker 0), still exactly one call (NV.C10.exactly_one_upstream holds for
+      -- any upstream behaviour)
+      let (fout, fcalls) := resolve (fun _ _ => 0) fs name
+      let fretS := match fout with
+        | .noForwarder => "noforwarder"
+        | .passed _ => "err"
+      some s!"list={joinOrDash (fs.map fun f => toHexOrDash (fwString f))} get={getS} calls={joinOrDash (calls.map toString)} ret={retS} fcalls={joinOrDash (fcalls.map toString)} fret={fretS}"
     | _, _ => some "bad-op"
   | _ => none
 
